@@ -38,8 +38,15 @@ func main() {
 	out := flag.String("out", "", "summary file")
 	overlayReport := flag.String("overlay-report", "", "report.json of overlaygen")
 	freerun := flag.Int("freerun", 0, "run the harness bodies free-running this many times (for a -race build) and exit")
+	freshChildFlag := flag.Bool("fresh-child", false, "internal: run one schedule of the first-use scenario in this (fresh) process")
+	choices := flag.String("choices", "", "internal: schedule of -fresh-child")
 	flag.Parse()
 	log.SetOutput(ioutil.Discard)
+
+	if *freshChildFlag {
+		freshChild(*choices)
+		return
+	}
 
 	if *freerun > 0 {
 		freeRun(*prop, *freerun)
@@ -398,6 +405,17 @@ func runC10(tier string, sum *props.SchedSummary) []vs.Result {
 	scY := c07RegistrationScenario()
 	resY := vs.Explore(scY, bound, budget)
 	out := []vs.Result{res, resB, res2, res3, resF, resZ, resY}
+	// the first calls of two threads in a process that has not used the library yet, one process per
+	// schedule (what is built lazily on first use is built once per process)
+	fb, fbudget := 1, 400
+	if tier == "thorough" {
+		fb, fbudget = 2, 6000
+	}
+	resU, errU := exploreFresh(fb, fbudget)
+	if errU != "" {
+		sum.Guards = append(sum.Guards, "C10: "+errU)
+	}
+	out = append(out, resU)
 	// every interleaving (no preemption bound) with state-key pruning, for the result oracles
 	allBudget := 30000
 	if tier == "thorough" {
